@@ -104,8 +104,10 @@ def finish(prop, tier, runs, t0, seed, extra_cov=None, selftest=None):
             known_hit[r.key] = r
         else:
             viol.setdefault(r.key, (cfgname, r))
-    os.makedirs(os.path.join(VERIF, "evidence", "replay"), exist_ok=True)
-    replay_path = os.path.join(VERIF, "evidence", "replay", "%s.json" % prop)
+    # tools that run the checks against a deliberately broken tree redirect the output (VERIF_EVIDENCE_DIR)
+    evdir = os.environ.get("VERIF_EVIDENCE_DIR") or os.path.join(VERIF, "evidence")
+    os.makedirs(os.path.join(evdir, "replay"), exist_ok=True)
+    replay_path = os.path.join(evdir, "replay", "%s.json" % prop)
     if viol:
         json.dump({"property": prop, "violations": [dict(r.as_dict(), config=c) for c, r in viol.values()]},
                   open(replay_path, "w"), indent=1)
@@ -187,7 +189,7 @@ def finish(prop, tier, runs, t0, seed, extra_cov=None, selftest=None):
         "wall_s": round(time.time() - t0, 2),
         "violations": len(viol),
     }
-    json.dump(ev, open(os.path.join(VERIF, "evidence", "%s.json" % prop), "w"), indent=1)
+    json.dump(ev, open(os.path.join(evdir, "%s.json" % prop), "w"), indent=1)
     print("%s: %d obligations, %d discharged, %d violations, %d known findings (%.1fs)" % (
         prop, n_obl, n_pass, len(viol), len(known_hit), time.time() - t0))
     return 1 if viol else 0
